@@ -216,6 +216,30 @@ Theorem C06_compose_record : forall (p q r r' : rpulse) o1 o2 dq m1 m2 m12 N c1 
 Proof. exact compose_record. Qed.
 Print Assumptions C06_compose_record.
 
+(* --- record-level identity: the identity permutation without identifier mapping leaves operators, identifiers and
+       coefficients unchanged and never changes a cached value ([slot_sub sr sp]: a value held by the result is the
+       value held by the input; other slots were recomputed by the new pulse itself or dropped) --- *)
+Theorem C06_identity_record : forall (p r : rpulse) dq N,
+  0 < dq -> rremap p (seq 0 N) dq None = Some r -> ilog dq (p_d p) = N ->
+  Forall (is_mat (dq ^ N)) (c_opers p) -> Forall (is_mat (dq ^ N)) (n_opers p) ->
+  length (c_opers p) = length (c_ids p) -> length (n_opers p) = length (n_ids p) ->
+  length (c_coeffs p) = length (c_ids p) -> length (n_coeffs p) = length (n_ids p) ->
+  (forall evs, eigvals p = Have evs -> Forall (fun v => length v = dq ^ N) evs) ->
+  (forall Vs, eigvecs p = Have Vs -> Forall (is_mat (dq ^ N)) Vs) ->
+  (forall Qs, propagators p = Have Qs -> Forall (is_mat (dq ^ N)) Qs) ->
+  (forall U, total_propagator p = Have U -> is_mat (dq ^ N) U) ->
+  (forall Bm, control_matrix p = Have Bm -> is_arr (length (n_ids p)) (4 ^ N) Bm) ->
+  (forall L, tpl p = Have L -> is_arr (4 ^ N) (4 ^ N) L) ->
+  (forall Fm, filter_function p = Have Fm -> is_arr (length (n_ids p)) (length (n_ids p)) Fm) ->
+  c_opers r = c_opers p /\ n_opers r = n_opers p /\ c_ids r = c_ids p /\ n_ids r = n_ids p /\
+  c_coeffs r = c_coeffs p /\ n_coeffs r = n_coeffs p /\ p_dt r = p_dt p /\ p_d r = p_d p /\ btype r = btype p /\
+  slot_sub (eigvals r) (eigvals p) /\ slot_sub (eigvecs r) (eigvecs p) /\ slot_sub (propagators r) (propagators p) /\
+  slot_sub (total_propagator r) (total_propagator p) /\ slot_sub (omega r) (omega p) /\
+  slot_sub (total_phases r) (total_phases p) /\ slot_sub (filter_function r) (filter_function p) /\
+  slot_sub (tpl r) (tpl p) /\ slot_sub (control_matrix r) (control_matrix p).
+Proof. exact remap_id_record. Qed.
+Print Assumptions C06_identity_record.
+
 (* --- the hypotheses are satisfiable --- *)
 Example C06_ex_remap_succeeds :
   exists r, rremap ex_pulse [1; 0] 2 (Some ex_map) = Some r
